@@ -97,10 +97,10 @@ def search(ctx, failing_ops):
     # a byte-level disagreement (seqbytes / seqfile / progfile) becomes the same request through the end-to-end oracle
     for o in failing_ops:
         p = o.split(" ")
-        if p[0] in ("seqbytes", "seqfile", "progfile") and len(p) >= 8:
+        if p[0] in ("seqbytes", "seqfile", "progfile", "arifile") and len(p) >= 8:
             ss = "3" if p[7] == "1" else str(int(p[5]) * 10 + int(p[6]))
-            kind, sseed = (p[8], p[9]) if p[0] == "progfile" else ("0", "0")
-            mode = "0" if p[0] != "progfile" else ("2" if sseed == "0" else "3")
+            kind, sseed = (p[8], p[9]) if p[0] == "progfile" else ((p[8], p[10]) if p[0] == "arifile" else ("0", "0"))
+            mode = p[9] if p[0] == "arifile" else ("0" if p[0] != "progfile" else ("2" if sseed == "0" else "3"))
             ops.append("ent %s %s %s 8 %s %s %s %s 0 %s -1" % (ss, p[2], p[3], p[1], kind, mode, p[4], sseed))
     ops += [one(rng) for _ in range(300)]
     found = []
